@@ -61,6 +61,23 @@ type bFunc struct {
 	Reenter bool
 	// Via: the function sits in the nested data map `ns` under this key and is called as ns.<Via>(...)
 	Via string
+	// ViaS: the function sits in this field of the struct `inv` in the data and is called as inv.<ViaS>(...)
+	ViaS string
+}
+
+// BInvoice is a record as hosts hand them over: its own Format field stands before an embedded
+// struct that has a Format field too (Go's rule: the shallower field is the one `inv.Format` names),
+// Len and Upper are promoted from the embedded struct.
+type BAudit struct {
+	Format interface{}
+	Len    interface{}
+	Upper  interface{}
+}
+
+type BInvoice struct {
+	Format interface{}
+	Total  int
+	BAudit
 }
 
 func (f *bFunc) sig() string {
@@ -323,6 +340,9 @@ func (n *BNode) text() string {
 			if n.Fn.Via != "" {
 				nm = "ns." + n.Fn.Via
 			}
+			if n.Fn.ViaS != "" {
+				nm = "inv." + n.Fn.ViaS
+			}
 		}
 		s := nm + "(" + strings.Join(p, ", ")
 		if n.Spread {
@@ -441,6 +461,9 @@ func kindsFor(p pType) (call, errk []bKind) {
 
 func (g *bgen) argFor(p pType, d int) *BNode {
 	s := g.s
+	if s.Intn(25) == 0 || (p.K == pIface && s.Intn(8) == 0) {
+		return &BNode{Op: bLit, Text: "ctx", V: BV{K: bCtx}} // the context itself as an ordinary argument
+	}
 	call, errk := kindsFor(p)
 	switch r := s.Intn(20); {
 	case r < 13 && len(call) > 0:
@@ -796,6 +819,7 @@ func bridgeOnce(rc *RunCtx, wl, fl *Stream, primary bool) {
 	w := &bWorld{funcs: map[string]*bFunc{}, token: token}
 	data, model := bridgeData(time.UTC)
 	var names []string
+	structTaken := map[string]bool{}
 	sample := &bridgeSample{}
 	for i := 0; i < 1+wl.Intn(nFuncs); i++ {
 		nm := "h" + strconv.Itoa(i)
@@ -814,20 +838,42 @@ func bridgeOnce(rc *RunCtx, wl, fl *Stream, primary bool) {
 				ns[via] = nil // filled by placeFuncs
 			}
 		}
+		if f.Via == "" && wl.Intn(6) == 0 { // reached through a field of a struct
+			fld := []string{"Format", "Len", "Upper"}[wl.Intn(3)]
+			if !structTaken[fld] {
+				structTaken[fld] = true
+				f.ViaS = fld
+			}
+		}
 		data[nm] = w.build(f)
 		sample.Funcs = append(sample.Funcs, f.sig())
 	}
+	decoy := &bFunc{Name: "decoy", Params: []pType{}, Variadic: true, Ret: rInt}
+	decoy.Params = append(decoy.Params, pType{K: pSlice, Elem: &pType{K: pIface}})
 	placeFuncs := func() {
+		inv := BInvoice{Total: 3}
+		inv.BAudit.Format = w.build(decoy) // hidden by BInvoice.Format: must never be reached through inv.Format
 		for _, nm := range names {
 			f := w.funcs[nm]
 			fn := w.build(f)
-			if f.Via != "" {
+			switch {
+			case f.Via != "":
 				data["ns"].(map[string]interface{})[f.Via] = fn
 				delete(data, nm)
-			} else {
+			case f.ViaS == "Format":
+				inv.Format = fn
+				delete(data, nm)
+			case f.ViaS == "Len":
+				inv.Len = fn
+				delete(data, nm)
+			case f.ViaS == "Upper":
+				inv.Upper = fn
+				delete(data, nm)
+			default:
 				data[nm] = fn
 			}
 		}
+		data["inv"] = inv
 	}
 	placeFuncs()
 	if wl.Intn(4) == 0 {
@@ -1068,6 +1114,9 @@ func bridgeOnce(rc *RunCtx, wl, fl *Stream, primary bool) {
 
 // errNameOf: the name an error must contain - the last segment of the callee expression
 func errNameOf(w *bWorld, fn string) string {
+	if f, ok := w.funcs[fn]; ok && f.ViaS != "" {
+		return f.ViaS
+	}
 	if f, ok := w.funcs[fn]; ok && f.Via != "" {
 		return f.Via
 	}
